@@ -186,7 +186,10 @@ def processOpT (v : Variant) (cfg : TCfg) (s : TState) (t : OpType) (pred : Opti
     | .restoreActiveBlob => do
         let st ← s.store.restoreActive
         .ok { s with store := st }
-    | .tryDumpBlobIndexes => .ok (tryRunDumpT s).1
+    | .tryDumpBlobIndexes =>
+        -- since the repair of E27 (all variants): a request that finds a dump task running is deferred, not dropped
+        let (s1, started) := tryRunDumpT s
+        if started then .ok s1 else .ok (deferDumpT v cfg s1)
     | .tryFsyncData => .ok (tryRunFsyncT s).1
     | .tryUpdateActiveBlob =>
         let (s1, switched) := tryUpdateActiveT cfg.lim s
